@@ -27,6 +27,10 @@ use std::collections::BTreeMap;
 #[derive(Clone, Copy, Debug, PartialEq, Eq, Hash)]
 pub enum Rel {
     Partition,
+    /// two-way split rows(Q) == rows(p) + rows(NOT p), exact: only for directed cells whose
+    /// predicate is known to be never unknown on Q (lets GQL, which has no IS NULL, lose rows
+    /// visibly)
+    PartitionTotal,
     Count,
     CountStar,
     Distinct,
@@ -41,6 +45,7 @@ impl Rel {
     fn name(self) -> &'static str {
         match self {
             Rel::Partition => "partition",
+            Rel::PartitionTotal => "partition_total",
             Rel::Count => "count",
             Rel::CountStar => "count_star",
             Rel::Distinct => "distinct",
@@ -97,6 +102,18 @@ fn components(rel: Rel, c: &Query, lang: Lang) -> Option<Vec<Comp>> {
     let mk = |q: Query| Comp { q, text: None, rules_off: vec![] };
     let (items, distinct) = plain(c)?;
     match rel {
+        Rel::PartitionTotal => {
+            let p = c.pred.clone()?;
+            if distinct || !c.order.is_empty() || c.skip.is_some() || c.limit.is_some() || !matches!(lang, Lang::Gql | Lang::Cypher) {
+                return None;
+            }
+            let mut all = c.clone();
+            all.pred = None;
+            all.fix_names();
+            let mut neg = c.clone();
+            neg.pred = Some(Pred::Not(Box::new(p), false));
+            Some(vec![mk(all), mk(c.clone()), mk(neg)])
+        }
         Rel::Partition => {
             let p = c.pred.clone()?;
             if distinct || !c.order.is_empty() || c.skip.is_some() || c.limit.is_some() {
@@ -224,7 +241,7 @@ fn sub_multiset(a: &BTreeMap<String, i64>, b: &BTreeMap<String, i64>) -> bool {
 /// Does the relation hold on these answers (one per component)? None = holds.
 fn check(rel: Rel, c: &Query, outs: &[Vec<Row>]) -> Option<(&'static str, String)> {
     match rel {
-        Rel::Partition => {
+        Rel::Partition | Rel::PartitionTotal => {
             let all = multiset(&outs[0]);
             let mut parts: BTreeMap<String, i64> = BTreeMap::new();
             for o in &outs[1..] {
@@ -233,7 +250,7 @@ fn check(rel: Rel, c: &Query, outs: &[Vec<Row>]) -> Option<(&'static str, String
                 }
             }
             let sizes: Vec<usize> = outs.iter().map(Vec::len).collect();
-            if outs.len() == 4 {
+            if outs.len() == 4 || rel == Rel::PartitionTotal {
                 // exact three-way split
                 if parts != all {
                     let kind = if !sub_multiset(&parts, &all) { "extra_rows" } else { "lost_rows" };
@@ -473,7 +490,7 @@ pub fn relation(g: &GraphSpec, rel: Rel, c: &Query, lang: Lang, dev: &Rules) -> 
             // ... of which only those that can break this relation are responsible (the others
             // merely shape the data the relation is evaluated on, identically in every component)
             let relevant: &[Rule] = match rel {
-                Rel::Partition => &[Rule::StackedFilter, Rule::RangeScanStrict, Rule::ZoneMapPrecheck],
+                Rel::Partition | Rel::PartitionTotal => &[Rule::StackedFilter, Rule::RangeScanStrict, Rule::ZoneMapPrecheck],
                 Rel::Count | Rel::CountStar => &[Rule::ErrCountStar],
                 Rel::Distinct | Rel::DistinctWith => &[Rule::DistinctIgnored],
                 Rel::Window => &[Rule::GqlWindowFirst, Rule::EdgeColTypeLost],
@@ -543,6 +560,7 @@ fn gen_instance(r: &mut Rng, huge: bool) -> (Rel, Query) {
     let huge_sizes: [u64; 12] = [0, 1, 2046, 2047, 2048, 2049, 2050, 2100, 2600, 3000, 4096, 5000];
     let pick_size = |r: &mut Rng| if huge { *r.pick(&huge_sizes) } else { *r.pick(&sizes) };
     match rel {
+        Rel::PartitionTotal => unreachable!("directed cells only"),
         Rel::Partition => {
             q.pred = Some(match r.below(10) {
                 0..=2 => gen_atom(r, &q),
@@ -639,7 +657,10 @@ fn process(g: &GraphSpec, rel: Rel, c: &Query, dev: &Rules, out: &mut CaseOut, s
                 out.count(&format!("fails.{}.{}", rel.name(), lang.name()));
                 let fam = family(&kind);
                 let mut fails = |g2: &GraphSpec, q2: &Query| matches!(relation(g2, rel, q2, lang, dev).0, Outcome11::Fails(k, _) if family(&k) == fam);
-                let (g2, q2, used) = shrink::shrink(g, c, 200, &mut fails);
+                // partition_total is only valid on the directed cells' own graph and label (the
+                // predicate must be total there): those cells are reported as they are
+                let budget = if rel == Rel::PartitionTotal { 0 } else { 200 };
+                let (g2, q2, used) = shrink::shrink(g, c, budget, &mut fails);
                 let (o2, texts2) = relation(&g2, rel, &q2, lang, dev);
                 let (kind2, detail) = match o2 {
                     Outcome11::Fails(k, d) => (k, d),
@@ -677,6 +698,13 @@ fn case(seed: u64, i: u64, dev: &Rules) -> CaseOut {
     let g = graph::random_graph(&mut gr, 40, 1.2);
     let mut qr = Rng::new(seed, "c11.query", i);
     let (rel, mut q) = gen_instance(&mut qr, false);
+    // a third of the predicates get literals at the bounds of the graph's actual values (the
+    // zone map's min/max) and literal-first spellings
+    if qr.chance(0.33) {
+        if let Some(p) = q.pred.as_mut() {
+            sharpen_pred(p, &|k| graph::key_bounds(&g, k), &mut qr);
+        }
+    }
     if matches!(rel, Rel::Window | Rel::WeakWindow) {
         // sizes around the actual result size
         let b = build(&g);
@@ -783,6 +811,36 @@ pub fn run(tier: Tier, seed: u64) -> ! {
             let mut out = CaseOut::default();
             process(&g, rel, &q, &rules, &mut out, "directed");
             merge11(&mut rep, out);
+        }
+        // zone-boundary family: partition / count / distinct with literal-first comparisons whose
+        // literal is at, just inside and just outside the store-wide min / max of the property,
+        // over a bare and a labelled node scan (on :P the predicate is never unknown: exact
+        // two-way split, so that GQL is sensitive too)
+        let bg = c08::boundary_graph();
+        for (key, lits) in c08::boundary_literals() {
+            for cst in &lits {
+                for op in [CmpOp::Eq, CmpOp::Ne, CmpOp::Lt, CmpOp::Le, CmpOp::Gt, CmpOp::Ge] {
+                    for labelled in [false, true] {
+                        let mut q = c08::base_query(0);
+                        if labelled {
+                            q.nodes[0].labels = vec!["P".into()];
+                        }
+                        q.pred = Some(Pred::Cmp(op, Term::Const(cst.clone()), Term::Prop(Var::N(0), key.into())));
+                        q.ret = Ret::Plain { items: uid_items(&q, false), distinct: false };
+                        let mut dq = q.clone();
+                        dq.ret = Ret::Plain { items: vec![Proj::Prop(Var::N(0), key.into())], distinct: true };
+                        let mut rels = vec![(Rel::Partition, q.clone()), (Rel::Count, q.clone()), (Rel::DistinctWith, dq)];
+                        if labelled {
+                            rels.push((Rel::PartitionTotal, q.clone()));
+                        }
+                        for (rel, carrier) in rels {
+                            let mut out = CaseOut::default();
+                            process(&bg, rel, &carrier, &dev, &mut out, "directed_zone_boundary");
+                            merge11(&mut rep, out);
+                        }
+                    }
+                }
+            }
         }
     }
     for out in run_parallel(n, th, |i| case(seed, i, &dev)) {
